@@ -82,9 +82,9 @@ Inductive xev :=
 
 Definition to_eev (Q : params) (mk : N * N -> item Q) (e : xev) : eev Q :=
   match e with
-  | XNew c => NewConn Q c | XLf => ListenerFail Q | XArr c bs => Arrive Q c bs
-  | XClose c => CloseRead Q c | XFailR c => FailRead Q c | XFailW c k => FailWrite Q c k
-  | XItem key v f => StreamItem Q key (mk (v, f)) | XEnd key => StreamEnd Q key | XPoll => Poll Q
+  | XNew c => NewConn c | XLf => ListenerFail | XArr c bs => Arrive c bs
+  | XClose c => CloseRead c | XFailR c => FailRead c | XFailW c k => FailWrite c k
+  | XItem key v f => StreamItem key (mk (v, f)) | XEnd key => StreamEnd key | XPoll => Poll
   end.
 
 Record scase := {
@@ -98,14 +98,16 @@ Definition sc_params (c : scase) : params := xparams (sc_step c) (sc_limit c) (s
 
 Definition enc_tev (c : scase) (e : tev (sc_params c)) : list N :=
   match e with
-  | TAccept _ k => [1; N.of_nat k]
-  | TInvoke _ _ cl => [2; ct cl]
-  | TNewStream _ _ key => [7; N.of_nat key]
-  | TWrite _ k m => 3 :: N.of_nat k :: xrender (sc_tmpl c) m ++ [0]
-  | TWriteFail _ k _ => [4; N.of_nat k]
-  | TDrop _ k => [5; N.of_nat k]
+  | TAccept k => [1; N.of_nat k]
+  | TInvoke _ cl _ => [2; ct cl]
+  | TNewStream _ key => [7; N.of_nat key]
+  | TWrite k m => 3 :: N.of_nat k :: xrender (sc_tmpl c) m ++ [0]
+  | TWriteFail k _ => [4; N.of_nat k]
+  | TDrop k => [5; N.of_nat k]
   | TSDrop _ key => [6; N.of_nat key]
-  | TExit _ => [9]
+  | TSYield _ key (SItem (v, f)) => [8; N.of_nat key; 1; v; f]
+  | TSYield _ key SEnd => [8; N.of_nat key; 0; 0; 0]
+  | TExit => [9]
   end.
 
 Definition model_run (c : scase) : list (list (list N) * list N) :=
